@@ -722,7 +722,35 @@ def c20(prop, tier, seed):
             fd = f[:-4] + "_damaged.e57"
             open(fd, "wb").write(img)
             damaged.append(fd)
-        allf = files + damaged
+        # files whose pages are all intact but whose XML no parser accepts (mismatched end tag, cut, stray '<'):
+        # the checksum tool must accept them and the extraction tool must still emit the XML section
+        from e57ref import crc as _crc
+        xmlbroken = []
+        for f in files[1::4]:
+            img = open(f, "rb").read()
+            if len(img) % 1024 or len(img) < 2048:
+                continue
+            log = bytearray(_crc.logical(img))
+            xo = _crc.phys_to_log(int.from_bytes(img[24:32], "little"))
+            xl = int.from_bytes(img[32:40], "little")
+            xml = bytes(log[xo:xo + xl])
+            how = rr.randrange(3)
+            if how == 0 and b"</e57Root>" in xml:
+                k = xml.rindex(b"</e57Root>")
+                new = xml[:k] + b"</e57Rood>" + xml[k + 10:]
+            elif how == 1 and len(xml) > 40:
+                k = rr.randrange(20, len(xml) - 10)
+                new = xml[:k] + b"<" + xml[k + 1:]
+            else:
+                new = xml[:len(xml) // 2] + b" " * (len(xml) - len(xml) // 2)
+            if len(new) != len(xml) or new == xml:
+                continue
+            log[xo:xo + xl] = new
+            fb = f[:-4] + "_xmlbroken.e57"
+            open(fb, "wb").write(_crc.paged(bytes(log)))
+            xmlbroken.append(fb)
+        cover["e57_inputs:xml-unparseable-but-pages-intact"] = len(xmlbroken)
+        allf = files + damaged + xmlbroken
         lst2 = os.path.join(wd, "all.txt")
         open(lst2, "w").write("\n".join(allf) + "\n")
         r, obs = run_dump(b, lst2, wd, "dump", seed, tier, prop)
@@ -739,7 +767,7 @@ def c20(prop, tier, seed):
 
         with ThreadPoolExecutor(NCPU) as ex:
             for f, problems in ex.map(one, allf):
-                kind = "damaged" if f.endswith("_damaged.e57") else ("encoder" if "/enc/" in f else "writer")
+                kind = "damaged" if f.endswith("_damaged.e57") else ("xmlbroken" if f.endswith("_xmlbroken.e57") else ("encoder" if "/enc/" in f else "writer"))
                 cover["e57_inputs:" + kind] = cover.get("e57_inputs:" + kind, 0) + 1
                 for rule, text in problems:
                     add(rule, f"{kind} file {os.path.basename(f)}: {text}", 0)
